@@ -131,6 +131,8 @@ func runC23(c *core.Ctx) {
 			return true
 		})
 	}
+	// routes are attached exactly while Established: every exit from Established runs uninit
+	exitEstablishedUninit(c)
 	// every Idle return from OpenSent/OpenConfirm/Established closes the connection
 	isBMP := p.Field(srv, "FSM", "isBMP")
 	c.Floor("idle-return-closes-connection", 20)
@@ -164,6 +166,12 @@ func runC23(c *core.Ctx) {
 			if !bad[r.Ret] {
 				c.Hold("idle-return-closes-connection", construct, r.Ret.Pos(), "con.Close() on every path")
 				continue
+			}
+			if r.Helper != nil {
+				if rets, implicit := core.ExitsWithout(p.CFG(r.Helper), conCloseNode(c, r.Helper)); len(rets) == 0 && !implicit {
+					c.Hold("idle-return-closes-connection", construct, r.Ret.Pos(), "the shared helper "+r.Helper.Name()+" closes the connection on every path")
+					continue
+				}
 			}
 			exempt := false
 			for _, ft := range core.FactsAt(m, r.Ret) {
